@@ -26,7 +26,10 @@ TwinRestart == /\ st = "drift" /\ ~bfresh
                /\ btarget' = NMeanSeq(lastB) /\ bsd' = NPopStdSeq(lastB)
                /\ bsh' = "0.0" /\ bsl' = "0.0" /\ blastB' = <<>>
                /\ bfresh' = TRUE /\ off' = total /\ UNCHANGED <<cusumvars, raised>>
-Next == Update \/ TwinRestart
+(* the caller's reset() once the statistics are known (and no drift is pending): both runs restart their sums and keep target / deviation *)
+Rst == /\ target # "None" /\ st # "drift"
+       /\ Reset /\ B!Reset /\ UNCHANGED <<bfresh, off>> /\ raised' = FALSE
+Next == Update \/ TwinRestart \/ Rst
 Spec == Init /\ [][Next]_vars
 Bound == TLCGet("level") <= Depth
 
